@@ -7,7 +7,7 @@ import re
 from .lib import decision, guards, paths, valueset
 from .lib.mir import AnchorLost
 
-CONFIGS_QUICK = ["A"]
+CONFIGS_QUICK = ["A", "R"]
 CONFIGS_THOROUGH = ["A", "R"]
 TECHNIQUE = ('literal directive tables of SetCookieBuilder::build vs SetCookie::from_raw (arm -> field map from stores), taint of the cookie value, pairing of the '
              'Set-Cookie store with its size; value-set dataflow (powerset of 0..255) over the byte classifiers vs the RFC 6265 alphabets')
@@ -178,6 +178,7 @@ def c11b(ck, prog):
     # request side: every value valid::value() answers is the percent-decoding of (a sub-slice of) the bytes it was given
     # and validated -- no rewriting of bytes (`+` -> space, trimming, case folding) between the validation and the decoding
     v = prog.one(r"serde_cookie::de::valid::value$")
+    v = prog.inlined(v, 2, lambda caller, callee: callee.crate == caller.crate and callee.kind != "Closure" and "serde_cookie" in callee.key and len(callee.blocks) < 60)     # quote stripping may be a helper
     n = 0
     for bb, kind, payload in paths.ret_sites(v):
         if kind in ("Err", "residual"):
@@ -254,7 +255,7 @@ def accepted_bytes(prog, f):
         if t["k"] == "switch" and re.match(r"discr\(next\(", decision.describe_deep(f, t["discr"], 3)):
             sw = b
     if sw is None:
-        raise AnchorLost("no byte loop in %s" % f.key)
+        return accepted_bytes_by_predicate(prog, f)
     entry = [tb for tb, lab in f.succ(sw) if lab == 1]
     if not entry:
         raise AnchorLost("no Some edge of the byte loop in %s" % f.key)
@@ -269,6 +270,46 @@ def accepted_bytes(prog, f):
     cont = frozenset()
     for hb in header:
         cont |= sets.get(hb, frozenset())
+    return cont, rejected
+
+
+def accepted_bytes_by_predicate(prog, f):
+    """the same for `if bytes.iter().any(|&b| forbidden(b)) { return Err(..) }` (or `!all(|b| allowed(b))`): the closure, with
+    the local predicate helpers it calls spliced in, is a classifier of its byte parameter; the bytes for which it answers
+    true / false are computed by value-set dataflow, and the combinator and the edge on which Err is returned say which of
+    the two sets is refused."""
+    g = prog.inlined(f, 2, lambda caller, callee: callee.crate == caller.crate and callee.kind != "Closure" and len(callee.blocks) < 60)
+    tests = [c for c in g.calls() if c.name in ("any", "all") and len(c.args) == 2 and re.search(r"Iterator::(any|all)$", c.decl or "")]
+    if len(tests) != 1:
+        raise AnchorLost("no byte loop and no single any()/all() over the bytes in %s" % f.key)
+    t = tests[0]
+    src = decision.describe_deep(g, t.args[0], 6)
+    if not re.search(r"iter\(.*arg1", src):
+        raise AnchorLost("the any()/all() of %s does not run over the argument bytes (%s)" % (f.key, src[:60]))
+    st = g.origin(t.args[1])
+    cl = prog.fns.get(st[-1][1][1].get("def")) if st and st[-1][0] == "agg" and isinstance(st[-1][1][1], dict) else None
+    if cl is None:
+        raise AnchorLost("the predicate handed to %s() in %s is not a closure literal" % (t.name, f.key))
+    body = prog.inlined(cl, 3, lambda caller, callee: callee.crate == caller.crate and len(callee.blocks) < 80)
+    # the byte: the closure's second argument (`|&b|` / `|b|`), through copies and dereferences
+    is_byte = lambda fn, op: re.fullmatch(r"(deref\()*arg2\)*(@\w+)?(\.0)?", decision.describe_deep(fn, op, 4)) is not None
+    ts, fs_, unk = valueset.predicate_sets(body, is_byte)
+    if unk:
+        raise AnchorLost("the predicate of %s answers something this analysis cannot read for bytes %s" % (f.key, valueset.show(unk)))
+    # on which answer of the combinator is Err returned?
+    errs = [bb for bb, kind, _ in paths.ret_sites(g) if kind in ("Err", "residual")]
+    truth = None
+    for bb in errs:
+        for fa in guards.facts_at(g, prog, bb):
+            if fa.kind == "boolcall" and fa.call.bb == t.bb:
+                truth = fa.truth
+    if truth is None:
+        raise AnchorLost("no Err return of %s depends on the %s() over the bytes" % (f.key, t.name))
+    # any(p): true iff some byte satisfies p; all(p): false iff some byte fails p
+    if t.name == "any":
+        rejected, cont = (ts, fs_) if truth else (fs_, ts)
+    else:
+        rejected, cont = (fs_, ts) if not truth else (ts, fs_)
     return cont, rejected
 
 
